@@ -118,8 +118,15 @@ func ccGen(r *gen.Rand, q *rq, pNoCache, pNoStore, den int) {
 		return
 	}
 	if r.Chance(1, 6) {
+		// upper / mixed-case spelling: directives are case-insensitive (RFC 9111 5.2), so it is a
+		// no-cache / no-store request like any other (judged since the fix in /repo)
 		q.CCLoose = d
 		q.CC = ccSpell(r, d, true)
+		if d == "no-cache" {
+			q.NoCache = true
+		} else {
+			q.NoStore = true
+		}
 		return
 	}
 	if d == "no-cache" {
